@@ -92,18 +92,25 @@ Section Election.
   Definition I_leader n := forall i,
     role (nodes n i) = Leader -> lead n (term (nodes n i)) = Some i.
 
+  (* the part of the election invariant that does not speak about quorums; it is
+     inductive for [step V'] with ANY voter set V' as long as no term gets a second
+     leader ([fresh]) -- which is where quorums come in (stage 1: fresh_fixed below;
+     stage 3: from the configuration argument) *)
   Record inv1 (n : net) : Prop := {
     i_vote_le : I_vote_le n;
     i_vote_cur : I_vote_cur n;
     i_one_vote : I_one_vote n;
     i_role_term : I_role_term n;
     i_lead_le : I_lead_le n;
-    i_lead_quorum : I_lead_quorum n;
     i_lead_cand : I_lead_cand n;
     i_leader : I_leader n
   }.
 
-  (* ---- consequences of inv1 in one state ---- *)
+  (* a BecomeLeader step happens in a term that had no leader so far *)
+  Definition fresh (n : net) (l : label) : Prop :=
+    forall i, l = LBecomeLeader i -> lead n (term (nodes n i)) = None.
+
+  (* ---- consequences in one state ---- *)
 
   Lemma vote_quorum_unique n t c1 c2 :
     I_one_vote n -> vote_quorum n t c1 -> vote_quorum n t c2 -> c1 = c2.
@@ -133,16 +140,22 @@ Section Election.
   Qed.
 
   Lemma candidate_quorum_not_led n i :
-    inv1 n -> role (nodes n i) = Candidate ->
+    inv1 n -> I_lead_quorum n -> role (nodes n i) = Candidate ->
     quorum V <= vote_count V (msgs n) (term (nodes n i)) i ->
     lead n (term (nodes n i)) = None.
   Proof.
-    intros Hinv Hrole Hq. destruct (lead n (term (nodes n i))) as [c|] eqn:Hl; [|reflexivity].
+    intros Hinv Hq0 Hrole Hq. destruct (lead n (term (nodes n i))) as [c|] eqn:Hl; [|reflexivity].
     exfalso.
     assert (c = i).
-    { eapply vote_quorum_unique; [apply Hinv | apply (i_lead_quorum n Hinv); eauto
-                                 | now apply count_vote_quorum]. }
+    { eapply vote_quorum_unique; [apply Hinv | apply Hq0; eauto | now apply count_vote_quorum]. }
     subst c. eapply (i_lead_cand n Hinv); eauto.
+  Qed.
+
+  (* with a fixed voter set, BecomeLeader is always fresh *)
+  Lemma fresh_fixed n l n' : inv1 n -> I_lead_quorum n -> step V n l n' -> fresh n l.
+  Proof.
+    intros Hinv Hq Hstep i ->. inversion Hstep; subst.
+    now apply candidate_quorum_not_led.
   Qed.
 
   (* monotonicity of the soup-only predicates *)
@@ -171,11 +184,11 @@ Section Election.
   Qed.
 
   Lemma step_lead_mono n l n' t c :
-    inv1 n -> step V n l n' -> lead n t = Some c -> lead n' t = Some c.
+    fresh n l -> step V n l n' -> lead n t = Some c -> lead n' t = Some c.
   Proof.
-    intros Hinv H Hl. inv_step H; try assumption.
+    intros Hf H Hl. inv_step H; try assumption.
     updg_case t (term (nodes n i)); [|assumption].
-    rewrite (candidate_quorum_not_led n i) in Hl by assumption. discriminate.
+    rewrite (Hf i eq_refl) in Hl. discriminate.
   Qed.
 
   (* ---- preservation ---- *)
@@ -233,12 +246,12 @@ Section Election.
     - specialize (Hold Hl); lia.
   Qed.
 
-  Lemma I_lead_quorum_step n l n' : inv1 n -> step V n l n' -> I_lead_quorum n'.
+  Lemma I_lead_quorum_step n l n' : I_lead_quorum n -> step V n l n' -> I_lead_quorum n'.
   Proof.
-    intros Hinv Hstep t c Hl.
+    intros Hq Hstep t c Hl.
     pose proof (step_msgs_incl n l n' Hstep) as Hincl.
     apply (vote_quorum_mono n n' t c Hincl).
-    pose proof (i_lead_quorum n Hinv t c) as Hold.
+    pose proof (Hq t c) as Hold.
     inv_step Hstep; auto.
     simp_updg; auto. injection Hl as <-. now apply count_vote_quorum.
   Qed.
@@ -252,26 +265,25 @@ Section Election.
       try (specialize (Hle Hl); lia); try congruence.
   Qed.
 
-  Lemma I_leader_step n l n' : inv1 n -> step V n l n' -> I_leader n'.
+  Lemma I_leader_step n l n' : inv1 n -> fresh n l -> step V n l n' -> I_leader n'.
   Proof.
-    intros Hinv Hstep i.
+    intros Hinv Hf Hstep i.
     pose proof (i_leader n Hinv i) as Hold.
     inv_step Hstep; simp_upd; intros Hr; auto; try discriminate.
     - (* BecomeLeader, the new leader *) now rewrite updg_eq.
     - (* BecomeLeader, another leader *)
       specialize (Hold Hr). simp_updg; auto.
-      rewrite (candidate_quorum_not_led n i0) in Hold by assumption. discriminate.
+      rewrite (Hf i0 eq_refl) in Hold. discriminate.
   Qed.
 
-  Lemma inv1_step n l n' : inv1 n -> step V n l n' -> inv1 n'.
+  Lemma inv1_step n l n' : inv1 n -> fresh n l -> step V n l n' -> inv1 n'.
   Proof.
-    intros Hinv Hstep. constructor.
+    intros Hinv Hf Hstep. constructor.
     - eapply I_vote_le_step; eauto.
     - eapply I_vote_cur_step; eauto.
     - eapply I_one_vote_step; eauto.
     - eapply I_role_term_step; eauto.
     - eapply I_lead_le_step; eauto.
-    - eapply I_lead_quorum_step; eauto.
     - eapply I_lead_cand_step; eauto.
     - eapply I_leader_step; eauto.
   Qed.
@@ -281,27 +293,40 @@ Section Election.
     constructor; red; simpl; intros; try contradiction; try discriminate; congruence.
   Qed.
 
-  Lemma inv1_steps n ls n' : inv1 n -> steps V n ls n' -> inv1 n'.
+  (* stage 1: inv1 together with the vote quorums of the fixed voter set *)
+  Definition inv1q (n : net) : Prop := inv1 n /\ I_lead_quorum n.
+
+  Lemma inv1q_step n l n' : inv1q n -> step V n l n' -> inv1q n'.
   Proof.
-    intros Hinv Hs. induction Hs; [assumption|]. apply IHHs. eapply inv1_step; eauto.
+    intros (Hinv & Hq) Hstep. split.
+    - eapply inv1_step; eauto. eapply fresh_fixed; eauto.
+    - eapply I_lead_quorum_step; eauto.
   Qed.
 
-  Lemma inv1_reachable n : reachable V n -> inv1 n.
-  Proof. intros (ls & Hs). eapply inv1_steps; [apply inv1_init | exact Hs]. Qed.
+  Lemma inv1q_init : inv1q (init).
+  Proof. split; [apply inv1_init | intros t c H; discriminate]. Qed.
+
+  Lemma inv1q_steps n ls n' : inv1q n -> steps V n ls n' -> inv1q n'.
+  Proof.
+    intros Hinv Hs. induction Hs; [assumption|]. apply IHHs. eapply inv1q_step; eauto.
+  Qed.
+
+  Lemma inv1q_reachable n : reachable V n -> inv1q n.
+  Proof. intros (ls & Hs). eapply inv1q_steps; [apply inv1q_init | exact Hs]. Qed.
 
   (* ---- the theorems of part 1 ---- *)
 
   Theorem one_vote_per_term n t w c1 c2 vl1 vl2 :
     reachable V n ->
     In (Vote t w c1 vl1) (msgs n) -> In (Vote t w c2 vl2) (msgs n) -> c1 = c2.
-  Proof. intros Hr. apply (i_one_vote n (inv1_reachable n Hr)). Qed.
+  Proof. intros Hr. apply (i_one_vote n (proj1 (inv1q_reachable n Hr))). Qed.
 
   Theorem election_safety n i j :
     reachable V n ->
     role (nodes n i) = Leader -> role (nodes n j) = Leader ->
     term (nodes n i) = term (nodes n j) -> i = j.
   Proof.
-    intros Hr Hi Hj Ht. pose proof (inv1_reachable n Hr) as Hinv.
+    intros Hr Hi Hj Ht. destruct (inv1q_reachable n Hr) as (Hinv & _).
     pose proof (i_leader n Hinv i Hi) as H1. pose proof (i_leader n Hinv j Hj) as H2.
     rewrite Ht in H1. congruence.
   Qed.
@@ -311,8 +336,8 @@ Section Election.
     reachable V n -> role (nodes n i) = Leader ->
     vote_quorum n (term (nodes n i)) i.
   Proof.
-    intros Hr Hi. pose proof (inv1_reachable n Hr) as Hinv.
-    apply (i_lead_quorum n Hinv). now apply (i_leader n Hinv).
+    intros Hr Hi. destruct (inv1q_reachable n Hr) as (Hinv & Hq).
+    apply Hq. now apply (i_leader n Hinv).
   Qed.
 
 End Election.
